@@ -203,8 +203,10 @@ def gen_scenario(rng, prof=None, force_selflock=None):
     T_out = Tmax * nums['E']                       # stall torque seen at the output
     k = T_out * nums['G'] / (w0 * nums['J_eq'])    # rate constant of the linear model at D=1
     kdt = math.exp(rng.uniform(math.log(p['kdt_lo']), math.log(p['kdt_hi'])))
-    tu = rng.choice(SI.units('TimeInterval'))
     dt_si = kdt / k
+    # time values are compared by the library with an absolute tolerance of 1e-12 in their unit (defect D9, recorded under
+    # C05): keep every time quantity >= 1e-6 in the unit it is written in, so that this property's decisions are not D9's
+    tu = rng.choice([u for u in SI.units('TimeInterval') if dt_si / SI.FACT['Time'][u] >= 1e-6] or ['ms'])
     dtv = sig(dt_si / SI.FACT['Time'][tu], 2)
     if dtv <= 0:
         dtv = 10 ** math.floor(math.log10(dt_si / SI.FACT['Time'][tu]))
@@ -250,7 +252,7 @@ def gen_scenario(rng, prof=None, force_selflock=None):
     spec['stop'] = None
     sched = [{'op': 'run', 'dt': dt, 'T': mulq(dt, n)}]
     if rng.random() < p['p_continue']:
-        u2 = rng.choice(SI.units('TimeInterval'))
+        u2 = rng.choice(time_units_for(dt_si))
         same = rng.random() < 0.5
         dt2 = reexpress(dt, u2) if same else Q('TimeInterval', sig(dt_si * rng.choice([0.5, 2, 0.25, 1]) / SI.FACT['Time'][u2], 2), u2)
         if dt2['v'] > 0:
@@ -263,6 +265,11 @@ def gen_scenario(rng, prof=None, force_selflock=None):
     spec['schedule'] = sched
     spec['_ref'] = {'k': k, 'T_out': T_out, 'w_out': w_out, 'dt_si': dt_si, 'n': n}
     return spec
+
+
+def time_units_for(dt_si, floor=1e-6):
+    """time units in which a step of dt_si seconds is written with a value >= floor (see gen_scenario)"""
+    return [u for u in SI.units('TimeInterval') if dt_si / SI.FACT['Time'][u] >= floor] or ['ms']
 
 
 def mulq(q, n):
@@ -288,9 +295,10 @@ def add_const_rules(rng, spec, n_rules=None, allow_overlap=False):
     for _ in range(k):
         d = rng.randint(1, max(2, n // 3))
         v = rng.choice([-1, -0.5, 0, 0, 0.5, 1, sig(rng.uniform(-1, 1), 2)])
-        tu = rng.choice(SI.units('Time'))
+        ok_u = time_units_for(qsi(dt0))
+        tu = rng.choice(ok_u)
         spec['rules'].append({'type': 'const', 'start': reexpress(Q('Time', mulq(dt0, t)['v'], dt0['u']), tu) if t else Q('Time', 0.0, tu),
-                              'dur': reexpress(mulq(dt0, d), rng.choice(SI.units('TimeInterval'))), 'value': v,
+                              'dur': reexpress(mulq(dt0, d), rng.choice(ok_u)), 'value': v,
                               '_k0': t, '_k1': t + d})
         t += d + (rng.randint(1, 4) if not allow_overlap else rng.randint(-d, 3))
         t = max(t, 0)
